@@ -16,4 +16,6 @@ let () = iter_lines (fun line ->
       let rs = range_parse (bytes_of_hex rg) (z_of_int (int_of_string len)) in
       Printf.printf "%d%s\n" (List.length rs)
         (String.concat "" (List.map (fun (a, b) -> Printf.sprintf " %s-%s" (z_to_string a) (z_to_string b)) rs))
+  | "D" :: lm :: ims :: _ ->
+      print_endline (if if_modified_since (z_of_int 123) (bytes_of_hex ims) (z_of_int (int_of_string lm)) then "1" else "0")
   | _ -> print_endline "?")
